@@ -66,13 +66,16 @@ def cases(draw, tier):
             t = float(knee_iou(p, draw(st.sampled_from(inner))))
     if t is None:
         t = draw(st.sampled_from([0.0, 0.1, 0.25, 0.33, 0.5, 0.75, 1.0])) if tmode != 'float' else draw(st.floats(0, 1))
-    return {'family': c['family'], 'pts': pts, 'knees': knees, 'mode': mode, 't': t}
+    return {'family': c['family'], 'pts': pts, 'knees': knees, 'mode': mode, 't': t, 'int_points': draw(st.booleans())}
 
 
 def oracle(case, rec):
     L = lib.lib()
     pp = L.postprocessing
     p = lib.pts_of(case)
+    if case.get('int_points') and np.all(p == np.floor(p)) and float(np.max(np.abs(p))) < 2 ** 30:
+        p = p.astype(np.int64)
+        rec.tag('points:int64')
     n = len(p)
     knees = np.array(case['knees'], dtype=int)
     t = float(case['t'])
